@@ -53,6 +53,11 @@ def FunOK (G : List (Nat × Handle)) (fn : Fun) : Prop :=
 def SlotOK (G : List (Nat × Handle)) (sl : SlotB) : Prop :=
   ∀ r fn, sl.rep = some r → r.fn = some fn → FunOK G fn
 
+/-- a signal object that is owned by a functor family (`ownG:`) is never pinned: if a forwarder was ever
+    made of it, it is of a trackable flavour (so the forwarders track it and die with it) -/
+def OwnOK (O : List (Nat × Nat)) (G : List (Nat × Handle)) : Prop :=
+  ∀ p ∈ O, ∀ h, aget G p.2 = some h → h.everFwd = true → h.fl.isTrackable = true
+
 /-! ## the invariant -/
 
 /-- per-impl well-formedness; `k` is the number of `clear()`s in progress on it (0 at every
@@ -75,6 +80,7 @@ structure InvX (off : Nat → Nat) (s : St) : Prop where
   fwdS : ∀ i v, aget s.S i = some v → SlotOK s.G v.slot
   fwdC : ∀ i im, aget s.impls i = some im → ∀ c ∈ im.cells, SlotOK s.G c.slot
   noerr : s.err = none
+  own : OwnOK s.ownedG s.G
 
 /-- the invariant of every state between two steps of the interpreter -/
 abbrev Inv (s : St) : Prop := InvX (fun _ => 0) s
